@@ -252,6 +252,8 @@ var pipeTagMenu = [][]PTag{
 	{{"gengo:recx:opt", []string{"1"}}, {"other", []string{"v"}}},
 	{{"gengo:re", []string{""}}},                         // a prefix of the name, not the name
 	{{"gengo:rec2:a", []string{""}}, {"gengo:rec", []string{""}}},
+	{{"gengo:proto", []string{""}}},
+	{{"gengo:proto", []string{""}}, {"gengo:rec", []string{""}}},
 }
 
 type pipeProfile struct {
@@ -273,6 +275,9 @@ func genScenario(r *Rng, pf pipeProfile) PScn {
 	}
 	if r.Chance(20) {
 		gens = append(gens, PGen{Name: "rec2"})
+	}
+	if r.Chance(25) {
+		gens = append(gens, PGen{Name: "proto"}) // the name ends in letters of the ".go" extension
 	}
 	for i := range gens {
 		gens[i].Alias = r.Chance(50)
@@ -316,7 +321,7 @@ func genScenario(r *Rng, pf pipeProfile) PScn {
 			p.Extra = append(p.Extra, "zdoc.go") // part of the package-level tags stands in a second file's package comment
 		}
 		if pf.extras {
-			for _, e := range []string{pipeBase + ".old.go", pipeBase + "x.go", pipeBase + ".rec.go", pipeBase + "_test.go", pipeBase + ".recx.go", "notes.txt", pipeBase + ".txt", "extra.go"} {
+			for _, e := range []string{pipeBase + ".old.go", pipeBase + "x.go", pipeBase + ".proto.go", pipeBase + ".rec.go", pipeBase + "_test.go", pipeBase + ".recx.go", "notes.txt", pipeBase + ".txt", "extra.go", "linked.go"} {
 				if r.Chance(35) {
 					p.Extra = append(p.Extra, e)
 				}
@@ -389,17 +394,17 @@ func pipeStream(name string, quick, thorough int, clauses string, pf pipeProfile
 	}
 }
 
-const pipeRuleCommon = "synthetic modules of 1–4 packages (directories and types declared in descending order), defined scalar/struct/generic/interface types, aliases, tags at global / package-doc (in a third of the packages spread over the package comments of two files) / declaration level from a menu incl. repeated keys and names that are prefixes of one another, 1–3 recording generators (with/without alias hook, reflect.New or custom New, a call counter and a helper-once flag rendered into the output) with scripted reactions per (generator, package, type); real NewContext/Execute in fresh child processes; "
+const pipeRuleCommon = "synthetic modules of 1–4 packages (directories and types declared in descending order), defined scalar/struct/generic/interface types, aliases, tags at global / package-doc (in a third of the packages spread over the package comments of two files) / declaration level from a menu incl. repeated keys and names that are prefixes of one another, 1–4 recording generators named rec, recx, rec2 and proto (with/without alias hook, reflect.New or custom New, a call counter and a helper-once flag rendered into the output) with scripted reactions per (generator, package, type); real NewContext/Execute in fresh child processes; "
 
 func init() {
 	register(&Property{ID: "C06", Streams: []*Stream{
-		pipeStream("dispatch", 240, 2400, "calls", pipeProfile{locals: true, maxPkgs: 3, allChance: 50},
+		pipeStream("dispatch", 500, 3600, "calls", pipeProfile{locals: true, maxPkgs: 3, allChance: 50},
 			pipeRuleCommon+"plus function-local types and type parameters sharing names with package-level types, and blank (`_`) type and constant declarations carrying enabling tags; compared with the model: result, files, sum, call log in order, rendered text; oracle: call log and rendered text prescribed by the statement (sorted enabled package-level defined types, aliases to the alias hook, callbacks once each after the calls); non-trivial = at least one call was made", nil),
-		pipeStream("dispatch-failing", 60, 600, "calls errors", pipeProfile{locals: false, failures: true, maxPkgs: 3, allChance: 50},
+		pipeStream("dispatch-failing", 120, 900, "calls errors", pipeProfile{locals: false, failures: true, maxPkgs: 3, allChance: 50},
 			pipeRuleCommon+"with scripted generator errors, failing deferred callbacks and unparseable output", nil),
 	}})
 	register(&Property{ID: "C07", Streams: []*Stream{
-		pipeStream("files", 300, 3000, "files other sum", pipeProfile{extras: true, prev: true, failures: true, nested: true, maxPkgs: 4, allChance: 60},
-			pipeRuleCommon+"in a third of the scenarios a second module nested in the tree whose path extends the main module's (own go.mod, replace directive, imported by the first package, holding a tagged type and a <base>.other.go of its own); pre-existing user files, look-alikes (zz_generatedx.go, zz_generated_test.go, zz_generated.txt), stale outputs, own old outputs, All on/off, previous gengo.sum none/corrupt/correct/stale/missing; oracle: the whole module tree hashed before and after — only <base>.* files of processed packages and gengo.sum under All may differ, a generator's file exists iff it rendered something (ErrIgnore with nothing rendered keeps the previous file), stale outputs are removed", nil),
+		pipeStream("files", 600, 4000, "files other sum", pipeProfile{extras: true, prev: true, failures: true, nested: true, maxPkgs: 4, allChance: 60},
+			pipeRuleCommon+"in a third of the scenarios a second module nested in the tree whose path extends the main module's (own go.mod, replace directive, imported by the first package, holding a tagged type and a <base>.other.go of its own); pre-existing user files (one of them possibly a symbolic link to a source file outside the package directory), look-alikes (zz_generatedx.go, zz_generated_test.go, zz_generated.txt), stale outputs, own old outputs, All on/off, previous gengo.sum none/corrupt/correct/stale/missing; oracle: the whole module tree hashed before and after — only <base>.* files of processed packages and gengo.sum under All may differ, a generator's file exists iff it rendered something (ErrIgnore with nothing rendered keeps the previous file), stale outputs are removed", nil),
 	}})
 }
